@@ -206,7 +206,7 @@ func c19Polarity(r *core.Report, f *core.Func) {
 			}
 			if guard == nil {
 				// the empty "no transactions" marker response is not guarded by the predicate: only count real transaction sends
-				if strings.Contains(core.ExprStr(n.Ast), "emptyResp") {
+				if sendsFreshEmptyResponse(fn, n.Ast) {
 					continue
 				}
 				nSites++
@@ -643,4 +643,43 @@ func c19VoteProgramsComplete(r *core.Report) {
 	if n == 0 {
 		r.Undecided(rule, f.Key+"#instruction-loop", posP(r, f.Pos()), "loop over the message instructions not found")
 	}
+}
+
+// sendsFreshEmptyResponse: the value sent is a response constructed on the spot (`&TransactionResponse{Slot: ...}`) that
+// carries no transaction - the "nothing found" marker, not a transaction that should have gone through the filter.
+func sendsFreshEmptyResponse(fn *core.Func, n ast.Node) bool {
+	info := fn.Pkg.TypesInfo
+	empty := func(e ast.Expr) bool {
+		if u, ok := core.Unparen(e).(*ast.UnaryExpr); ok && u.Op == token.AND {
+			e = u.X
+		}
+		cl, ok := core.Unparen(e).(*ast.CompositeLit)
+		if !ok {
+			return false
+		}
+		for _, el := range cl.Elts {
+			if kv, ok := el.(*ast.KeyValueExpr); ok {
+				if id, ok := kv.Key.(*ast.Ident); ok && id.Name == "Transaction" {
+					return false
+				}
+			}
+		}
+		return true
+	}
+	res := false
+	for _, c := range core.CallsIn(n, false) {
+		sel, ok := core.Unparen(c.Fun).(*ast.SelectorExpr)
+		if !ok || sel.Sel.Name != "Send" || len(c.Args) != 1 {
+			continue
+		}
+		if empty(c.Args[0]) {
+			res = true
+		}
+		if o := core.ObjOf(info, c.Args[0]); o != nil {
+			if d := singleDef(fn, o); d != nil && empty(d) {
+				res = true
+			}
+		}
+	}
+	return res
 }
